@@ -27,7 +27,28 @@ func TestC13(t *testing.T) {
 		sc := genScenario(t, o)
 		c := &sc.Client
 		unknown := rapid.IntRange(0, 2).Draw(t, "unknown_endpoint") == 0
-		if unknown {
+		lateUnknown := unknown && c.Form != FormREST && c.Form != FormConnectGet && rapid.IntRange(0, 2).Draw(t, "late_unknown") == 0
+		if lateUnknown {
+			// "no such endpoint" decided after validation: the service only offers REST and the
+			// method has no HTTP rule, so the request is delegated to the unknown-endpoint handler
+			sc.Config.Unknown = true
+			sc.Config.Protocols = []string{ProtoREST}
+			sc.Note = "unknown"
+			switch c.Form {
+			case FormConnectUnary:
+				c.Method = rapid.SampledFrom([]string{"UnaryPlain", "UnaryIdem"}).Draw(t, "norule_unary")
+			case FormConnectStream:
+				c.Method = rapid.SampledFrom([]string{"ClientStream", "ServerStream", "Bidi"}).Draw(t, "norule_stream")
+				c.HTTP2 = true
+			default:
+				c.Method = rapid.SampledFrom([]string{"UnaryPlain", "UnaryIdem", "ClientStream", "ServerStream"}).Draw(t, "norule_any")
+			}
+			if len(c.Msgs) != 1 {
+				c.Msgs = [][]byte{{}}
+				c.MsgRaw = nil
+			}
+			sc.Backend.Msgs = nil
+		} else if unknown {
 			sc.Config.Unknown = true
 			sc.Note = "unknown"
 			c.TargetOverride = rapid.SampledFrom([]string{"/nothing/here", "/verif.v1.Bench/Nope", "/verif.v1.Other/Unary", "/", "/v1/unary/extra/segment", "/v9/unknown?x=1&y=%20z", "/a%2Fb/c%20d?q=%41", "//double//slash", "/verif.v1.Bench/Unary/", "/v1/get"}).Draw(t, "unknown_target")
